@@ -207,6 +207,34 @@ def run_flags(model, tier):
         if [w[1] for w in written] != [b'min']:
             probs.append(Problem('payload', label, 'stdout receives %r, expected the UTF-8 encoding of the minify() result' % ([w[1] for w in written],)))
         out.append((label, argv, probs))
+    # the same flags must mean the same for every file of one run
+    multi = {'f1.py': b'# one\nimport os\nprint(os)\n', 'f2.py': b'# two\nimport sys\nprint(sys)\n', 'f3.py': b'# three\nimport json\nprint(json)\n'}
+    flagsets = [[]]
+    for f in lists:
+        flagsets.append([f, 'keep_a,keep_b'])
+    if lists:
+        fl = []
+        for f in lists:
+            fl += [f, 'x, y', f, 'z']
+        flagsets.append(fl + booleans[:2])
+    flagsets.append(list(booleans[:3]))
+    for argv in flagsets:
+        label = 'three files in place: %s' % (' '.join(argv) or 'no flags')
+        sc = clirun.Scenario(list(argv) + ['--in-place'] + sorted(multi), files=multi, answers={v: ('ok', 'min') for v in multi.values()})
+        r = clirun.run(model, sc)
+        probs = []
+        if r.failed():
+            probs.append(Problem('flags', label, 'the run fails: %s' % (r.outcome,)))
+        else:
+            calls_ = r.events('minify')
+            if len(calls_) != len(multi):
+                probs.append(Problem('flags', label, 'minify() is called %d times for %d files' % (len(calls_), len(multi))))
+            want, ann, _master = expected_keywords(model, argv)
+            for (_k, source, kw, extra) in calls_:
+                name = [n for n, v in multi.items() if v == source]
+                for t in compare_keywords(kw, want, ann):
+                    probs.append(Problem('flags', label, 'for %s: %s' % (name[0] if name else '?', t)))
+        out.append((label, argv, probs))
     _CACHE[key] = (out, booleans, lists)
     return _CACHE[key]
 
@@ -374,7 +402,10 @@ def run_modes(model, tier):
         results.append((label, sc, r, probs))
     # the size rule on boundary lengths (stdin to stdout)
     cases = [('ab', b'abc'), ('abc', b'abc'), ('abcd', b'abc'), ('', b''), ('a', b''), ('\xe9\xe9', b'abc'), ('\xe9', b'ab'), ('\xe9', b'a'), ('a\u20ac', b'abcd'), ('a\u20ac', b'abc'),
-             ('\U0001f600', b'abcd'), ('\U0001f600', b'abc'), ('x' * 40, b'y' * 39), ('x' * 39, b'y' * 40)]
+             ('\U0001f600', b'abcd'), ('\U0001f600', b'abc'), ('x' * 40, b'y' * 39), ('x' * 39, b'y' * 40),
+             # line-end conventions, BOM, cookie: what is written is the answer as it is, whatever the source looked like
+             ('a=1\nb=2\nc=3', b'a=1\r\nb=2\r\nc=3'), ('a=1\nb=2\nc=3', b'a=1\r\nb=2\nc=3\n'), ('a=1\nb=2', b'a=1\rb=2\r'), ('a\nb\nc\nd', b'a\r\nb\r\nc\r\nd'),
+             ('x=1', b'\xef\xbb\xbfx=1'), ('x="\xe9"', b'# -*- coding: latin-1 -*-\nx="\xe9"\n'), ('x="\xe9"', b'\xef\xbb\xbfx = "\xc3\xa9"\n')]
     for override in (None, '', '1'):
         for (text, source) in cases:
             sc = clirun.Scenario(['-'], stdin=source, env=({OVERRIDE: override} if override is not None else {}), answers={source: ('ok', text)})
@@ -431,6 +462,9 @@ def judge_mode(label, sc, r, paths, output, in_place, targets, vec, force, texts
             observed.append(('stdout', ev[1]))
         elif ev[0] == 'stdout-text' and not (output or in_place):
             observed.append(('stdout', ev[1]))
+    for (d_, p_) in observed:
+        if not isinstance(p_, (bytes, str)):
+            raise AnalysisError('UNDECIDED: %s: the payload written to %s is not determined by the scenario (%r)' % (label, d_, p_))
     if fail_at is None:
         if r.failed():
             P.append(Problem('failure', label, 'the run fails although every source is readable and minifies: %s' % (r.outcome,)))
